@@ -67,7 +67,7 @@ def p_rand_config(rng, thorough):
 
 def p_rand_history(rng, cfg, n):
     w, a = cfg["W"], cfg["A"]
-    now = rng.choice([rng.randint(0, 20), DAY - rng.randint(1, 10), rng.randint(0, 3 * DAY), 2 * DAY - rng.randint(0, 3 * w)])
+    now = max(0, rng.choice([rng.randint(0, 20), DAY - rng.randint(1, 10), rng.randint(0, 3 * DAY), 2 * DAY - rng.randint(0, 3 * w)]))
     h = [{"ev": "reset", "now": now}]
     hot = rng.choice(cfg["groups"])
     for _ in range(n):
@@ -258,11 +258,55 @@ def f_nontrivial(hist):
     return False
 
 
+# --------------------------------------------------------------------------- what the recorded histories reached (bookkeeping)
+def p_stats(cfg, hist, st):
+    """counts, from what the code answered: windows of a key in which more than its plain share passed (spillover was used),
+    requests answered on the renewal day after such a window, windows skipped without traffic, metric reads"""
+    now, dom, per, over = 0, 0, {}, False
+    for e in hist:
+        if e["ev"] == "reset":
+            now, dom = e["now"], e["dom"]
+        elif e["ev"] == "adv":
+            now, dom = now + e["d"], e["dom"]
+            if e["d"] >= 2 * cfg["W"]:
+                st["policy_advances_skipping_windows"] += 1
+            if e["crossed"]:
+                st["policy_advances_touching_renewal_day"] += 1
+        elif e["ev"] == "read":
+            st["policy_metric_reads"] += 1
+        elif e["ev"] in ("req", "batch"):
+            k = (e["g"], now // cfg["W"])
+            p = e["passes"] if e["ev"] == "batch" else (1 if e["out"] == "pass" else 0)
+            per[k] = per.get(k, 0) + p
+            share = -(-cfg["A"] * cfg["Pct"][e["g"]] // 100)
+            if per[k] > share and p > 0:
+                st["policy_passes_beyond_plain_share"] += 1
+                over = True
+            if over and dom == cfg["RenewDay"]:
+                st["policy_requests_on_renewal_day_after_spillover"] += 1
+
+
+def f_stats(cfg, hist, st):
+    refused = False
+    for e in hist:
+        if e["ev"] == "adv":
+            if e.get("renew"):
+                st["flows_advances_over_renewal_instant"] += 1
+            if e["d"] >= cfg["W"]:
+                st["flows_advances_of_a_window_or_more"] += 1
+        elif e["ev"] == "arrive":
+            if e["out"] == "refuse":
+                refused = True
+                st["flows_refusals"] += 1
+            if cfg["SpillOn"]:
+                st["flows_requests_on_quota_with_spillover"] += 1
+
+
 # --------------------------------------------------------------------------- execution + judgement
 MODES = {
-    "policy": {"trace": "SpilloverThrottleTrace", "script_of": p_script_of_history, "nontrivial": p_nontrivial,
+    "policy": {"trace": "SpilloverThrottleTrace", "script_of": p_script_of_history, "nontrivial": p_nontrivial, "stats": p_stats,
                "count": lambda e: e.get("n", 1) if e["ev"] in ("req", "batch") else 0},
-    "flows": {"trace": "SpilloverFwTrace", "script_of": f_script_of_history, "nontrivial": f_nontrivial,
+    "flows": {"trace": "SpilloverFwTrace", "script_of": f_script_of_history, "nontrivial": f_nontrivial, "stats": f_stats,
               "count": lambda e: 1 if e["ev"] == "arrive" else 0},
 }
 
@@ -307,6 +351,7 @@ def judge(ctx, binary, mode, scripts, traces, tag, seen):
                 seen.add(key)
                 if m["nontrivial"](h):
                     ctx.cov["distinct_nontrivial"] += 1
+                m["stats"](cfg, h, ctx.cov["reached"])
         for rej in rejected:
             w = witness_of(mode, rej)
             script = dict(sc)
@@ -424,7 +469,7 @@ def run(ctx):
     jobs += [("SpilloverThrottleIP", "MC_x03_v_%s.cfg" % v, "violated", "non-vacuity: policy variant %s must be refuted" % v) for v in POLICY_BROKEN]
     jobs += [("SpilloverThrottleIP", "MC_x03_v_%s.cfg" % v, "ok", "benign policy variant %s" % v) for v in POLICY_BENIGN]
     jobs += [("SpilloverFwIP", "MC_x03fw_v_%s.cfg" % v, "violated", "non-vacuity: flows variant %s must be refuted" % v) for v in FW_BROKEN]
-    jobs += [("SpilloverFwIP", "MC_x03fw_v_%s.cfg" % v, "ok", "benign flows variant %s (documented carrying)" % v) for v in FW_BENIGN]
+    jobs += [("SpilloverFwIP", "MC_x03fw_v_%s.cfg" % v, "ok", "benign flows variant %s (documented carrying)" % v) for v in (FW_BENIGN if T else FW_BENIGN[:1])]
     jobs += [("SpilloverThrottleIP", "MC_x03_wit_use.cfg", "violated", "witness: a window passes more than the allowance"),
              ("SpilloverThrottleIP", "MC_x03_wit_renew.cfg", "violated", "witness: a renewal zeroes held spillover"),
              ("SpilloverThrottleIP", "MC_x03_group_witness.cfg", "violated", "D3: the per-share bound does not hold for the code as it is"),
@@ -434,6 +479,8 @@ def run(ctx):
     ctx.cov["exhaustive"] = True
 
     seen = set()
+    import collections
+    ctx.cov["reached"] = collections.defaultdict(int)
     # (2) spec -> code
     n = 60 if not T else 500
     walks(ctx, binary, "SpilloverThrottleIP", "GenX03.cfg", "policy",
@@ -463,25 +510,41 @@ def run(ctx):
     # (4) the documented scenarios and the disagreements, as observed on this tree
     probes(ctx, binary, seen)
 
-    # (5) binding self-test (thorough): a corrupted / truncated recording must be rejected
+    ctx.cov["reached"] = dict(ctx.cov["reached"])
+    for k in ("policy_passes_beyond_plain_share", "policy_requests_on_renewal_day_after_spillover", "policy_advances_skipping_windows",
+              "policy_metric_reads", "flows_advances_over_renewal_instant", "flows_refusals", "flows_requests_on_quota_with_spillover"):
+        if ctx.cov["reached"].get(k, 0) < 5:
+            raise Broken("vacuous run: the recorded histories reached '%s' only %d times" % (k, ctx.cov["reached"].get(k, 0)))
+    if ctx.cov["distinct_nontrivial"] < 50:
+        raise Broken("vacuous run: %d non-trivial histories" % ctx.cov["distinct_nontrivial"])
+
     if T:
-        for mode, traces in (("policy", tr), ("flows", ftr)):
+        selftest(ctx, binary)
+
+
+def selftest(ctx, binary):
+    # (5) binding self-test (thorough): a corrupted / truncated recording must be rejected.  The recordings are those of a key's
+    #     first window (no spillover can be held there under any reading, so the specification is exact)
+    if True:
+        pself = {"config": {"groups": ["-"], "Pct": {"-": 100}, "A": 2, "W": 5, "RenewDay": 0},
+                 "histories": [[{"ev": "reset", "now": 7}] + [{"ev": "req", "g": "-"}] * 3]}
+        cself = {"Max": 2, "interval": 5, "unit": "second", "grouped": False, "custom": False, "spill": 3, "renew": {"day": 10, "hour": 0, "minute": 0}}
+        fself = f_script(cself, [[{"ev": "reset", "now": 7}] + [{"ev": "arrive", "q": "q1", "g": "default", "cost": 1}] * 3])
+        for mode, script, evn, blk, pas in (("policy", pself, "req", "block", "pass"), ("flows", fself, "arrive", "refuse", "admit")):
             tn = MODES[mode]["trace"]
-            blk, pas = ("block", "pass") if mode == "policy" else ("refuse", "admit")
-            evn = "req" if mode == "policy" else "arrive"
-            ev = next(t for t in traces if any(e.get("ev") == evn and e.get("out") == blk for e in t))
-            k = next(i for i, e in enumerate(ev) if e.get("ev") == evn and e.get("out") == blk)
+            ev = execute(ctx, binary, mode, [script], "selftest")[0]
+            if [e.get("out") for e in ev if e["ev"] == evn] != [pas, pas, blk]:
+                raise Broken("self-test (%s): unexpected recording %s" % (mode, json.dumps(ev)))
+            _, rej0, _ = validate_history_trace(ctx, SPEC, tn, ev, tag="selftest0-" + mode, max_rounds=1)
             bad = [dict(e) for e in ev]
-            bad[k]["out"] = pas
-            _, rej, _ = validate_history_trace(ctx, SPEC, tn, bad, tag="selftest1-" + mode, max_rounds=1)
-            k2 = next(i for i, e in enumerate(ev[:k]) if e.get("ev") == evn and e.get("out") == pas and
-                      (e.get("g"), e.get("cost", 1) > 0) == (ev[k].get("g"), True))
-            # drop an earlier admitted request of the same key in the same history: the later refusal may lose its explanation
-            drop = [e for i, e in enumerate(ev) if i != k2]
+            bad[-1]["out"] = pas
+            _, rej1, _ = validate_history_trace(ctx, SPEC, tn, bad, tag="selftest1-" + mode, max_rounds=1)
+            drop = ev[:2] + ev[3:]
             _, rej2, _ = validate_history_trace(ctx, SPEC, tn, drop, tag="selftest2-" + mode, max_rounds=1)
-            if not rej:
-                raise Broken("self-test (%s): corrupted verdict accepted" % mode)
-            ctx.notes.append("self-test %s: corrupted verdict rejected=%s, dropped admitted request rejected=%s" % (mode, bool(rej), bool(rej2)))
+            if rej0 or not rej1 or not rej2:
+                raise Broken("self-test (%s): original rejected=%s, corrupted verdict rejected=%s, dropped request rejected=%s" % (
+                    mode, bool(rej0), bool(rej1), bool(rej2)))
+            ctx.notes.append("self-test %s: recording accepted; corrupted verdict rejected; recording with one admitted request dropped rejected" % mode)
 
 
 def replay(ctx, path):
